@@ -31,15 +31,19 @@ inductive Mode where
   | crypt       -- crypt_config (Fernet encrypter)
   deriving DecidableEq, Repr
 
+/-- what the HMAC is computed over: payload and timestamp length-prefixed (after the fix for F-C17-a;
+    before it: the bare concatenation `payload ++ ts`) -/
+def macInput (payload ts : Str) : Str := pack [payload, ts]
+
 /-- `"::".join([value, typ])` -/
 def payloadOf (value typ : Str) : Str := join2 colon [value, typ]
 
 /-- `_sign_enc_payload(payload, timestamp)` (timestamp already rendered as text, non-empty) -/
 def signEnc (k : Crypto) (mode : Mode) (iv : Str) (payload ts : Str) : Str :=
   match mode with
-  | .signed => join1 bar [ts, payload, k.b64 (k.mac (payload ++ ts))]
+  | .signed => join1 bar [ts, payload, k.b64 (k.mac (macInput payload ts))]
   | .signedEnc =>
-    let msg := pack [payload, ts, k.b64 (k.mac (payload ++ ts))]
+    let msg := pack [payload, ts, k.b64 (k.mac (macInput payload ts))]
     let (ct, tag) := k.aeadEnc iv msg
     join1 bar [ts, k.b64 iv, k.b64 ct, k.b64 tag]
   | .encOnly =>
@@ -76,7 +80,7 @@ def verDec (k : Crypto) (mode : Mode) (parts : List Str) : Option (Str × Str) :
     if mode ≠ .signed ∧ mode ≠ .signedEnc then none else
     match k.unb64 b64mac with
     | none => none
-    | some mac => if mac = k.mac (payload ++ ts) then some (payload, ts) else none
+    | some mac => if mac = k.mac (macInput payload ts) then some (payload, ts) else none
   | [_, iv, ct, tag] =>
     if mode ≠ .signedEnc ∧ mode ≠ .encOnly then none else
     match k.unb64 iv, k.unb64 ct, k.unb64 tag with
@@ -89,7 +93,7 @@ def verDec (k : Crypto) (mode : Mode) (parts : List Str) : Option (Str × Str) :
           if mode ≠ .signedEnc then none else       -- no sign key: AttributeError
           match k.unb64 m with
           | none => none
-          | some mac => if mac = k.mac (payload ++ ts) then some (payload, ts) else none
+          | some mac => if mac = k.mac (macInput payload ts) then some (payload, ts) else none
         | some (payload :: ts :: _) => some (payload, ts)
         | _ => none
     | _, _, _ => none
